@@ -5,6 +5,8 @@ mod gen_conv;
 mod msgs;
 mod nums;
 mod obs;
+#[cfg(feature = "std")]
+mod poll;
 mod scan;
 
 use obs::Obs;
@@ -14,6 +16,8 @@ use std::io::{BufRead, BufWriter, Write};
 #[derive(Default)]
 pub struct State {
     pub tables: scan::Tables,
+    #[cfg(feature = "std")]
+    pub ptables: poll::PTables,
 }
 
 /// Evaluate one request on the real crate.
@@ -22,6 +26,8 @@ pub fn eval_request(st: &mut State, req: &str) -> Option<Obs> {
     match w.as_slice() {
         ["cc", rest @ ..] => scan::eval_cc(&mut st.tables, rest),
         ["pn", rest @ ..] => scan::eval_pn(&mut st.tables, rest),
+        #[cfg(feature = "std")]
+        ["pp", rest @ ..] => poll::eval_pp(&mut st.ptables, rest),
         ["enc14", which, c, n, v] => Some(scan::enc14_obs(which, c.parse().ok()?, n.parse().ok()?, v.parse().ok()?)),
         ["encpn", which, i, c, n, v, order] => Some(scan::encpn_obs(which, i.parse().ok()?, c.parse().ok()?, n.parse().ok()?, v.parse().ok()?, *order == "lsb")),
         ["msg", which, s, d1, d2] => {
@@ -282,6 +288,14 @@ fn main() {
         "pn-explore" => { let chans: Vec<u32> = args[2..].iter().filter_map(|s| s.parse().ok()).collect(); scan::explore(&mut out, "pn", &chans, 2_000_000); }
         "cc-random" => { let (h, l) = if tier == "thorough" { (40_000, 80) } else { (5_000, 60) }; scan::random_histories(&mut out, "cc", seed, h, l); }
         "pn-random" => { let (h, l) = if tier == "thorough" { (40_000, 80) } else { (5_000, 60) }; scan::random_histories(&mut out, "pn", seed, h, l); }
+        #[cfg(feature = "std")]
+        "pp-explore" => {
+            let timeout: u64 = args[2].parse().unwrap();
+            let chans: Vec<u32> = args[3..].iter().filter_map(|s| s.parse().ok()).collect();
+            poll::explore(&mut out, &chans, timeout, 3_000_000);
+        }
+        #[cfg(feature = "std")]
+        "pp-random" => { let (h, l) = if tier == "thorough" { (60_000, 80) } else { (6_000, 60) }; poll::random_histories(&mut out, seed, h, l); }
         "cc-roundtrip" => scan::roundtrips(&mut out, "cc", seed, if tier == "thorough" { 2_000_000 } else { 100_000 }),
         "pn-roundtrip" => scan::roundtrips(&mut out, "pn", seed, if tier == "thorough" { 2_000_000 } else { 100_000 }),
         // factory constructors: named (block digests), generic, test_util shorthands
